@@ -147,10 +147,45 @@ pub fn g2(ctx: &Ctx) {
     scene.clouds.clear();
     scene.clouds.push(m::Cloud { meta: m::CloudMeta { guid: Some("c".into()), ..Default::default() }, proto, points, records: n as u64, file_offset: 0 });
     let base = if ctx.tier_thorough && n * w as usize <= 24 * 8 { 3 } else { 2 };
-    let k = Knobs { cuts: true, base_packets: base, ..Knobs::NONE };
+    // proto_attrs: a limit that equals its default (i64::MIN / i64::MAX) may be left out, which gives
+    // prototypes that declare only one of the two limits
+    let k = Knobs { cuts: true, base_packets: base, proto_attrs: true, ..Knobs::NONE };
     if let Some((enc, exp)) = model_file(ctx, &scene, k) {
         judge(ctx, w as usize, &enc, &exp);
         ctx.count(format!("width:{w}"));
+    }
+}
+
+/// G5 - zero width everywhere: prototypes whose records all have minimum == maximum (Integer and
+/// ScaledInteger in every combination): no byte stream carries data, every point is implied
+pub fn g5(ctx: &Ctx) {
+    let mask = ctx.pick("scaled-records", 16); // which of the 4 records are ScaledInteger
+    let n = [1usize, 3, 100][ctx.pick("npoints", 3)];
+    let via = ctx.pick("producer", 2); // 0 the real writer, 1 the independent encoder
+    let names = ["cartesianX", "cartesianY", "cartesianZ", "intensity"];
+    let proto: Vec<m::Rec> = names
+        .iter()
+        .enumerate()
+        .map(|(i, nm)| {
+            let v = 5 * i as i64 - 7;
+            rec(nm, if mask & (1 << i) != 0 { Ty::Scaled { min: v, max: v, scale: 0.5, offset: 1.0 } } else { Ty::Int { min: v, max: v } })
+        })
+        .collect();
+    let points: Vec<Vec<Val>> = (0..n).map(|_| proto.iter().map(|r| match r.ty { Ty::Scaled { min, .. } => Val::Scaled(min), Ty::Int { min, .. } => Val::Int(min), _ => Val::Int(0) }).collect()).collect();
+    ctx.describe(|| format!("{n} points, all four records of zero width, ScaledInteger mask {mask:04b}, produced by {}", ["the writer", "the independent encoder"][via]));
+    if via == 0 {
+        let cl = CloudSpec { meta: m::CloudMeta { guid: Some("z".into()), ..Default::default() }, proto, points, cap: None, abandon: false, rejects: Vec::new(), clear_limits: (false, false) };
+        let p = Program { guid: "g".into(), ops: vec![Op::Cloud(cl)], ..Default::default() };
+        if crate::oracle::roundtrip(ctx, &p, P).is_some() {
+            ctx.nontrivial();
+        }
+    } else {
+        let mut scene = crate::scenes::scene(0);
+        scene.clouds.clear();
+        scene.clouds.push(m::Cloud { meta: m::CloudMeta { guid: Some("z".into()), ..Default::default() }, proto, points, records: n as u64, file_offset: 0 });
+        if let Some((enc, exp)) = model_file(ctx, &scene, Knobs::NONE) {
+            judge(ctx, 0, &enc, &exp);
+        }
     }
 }
 
